@@ -7,6 +7,8 @@ CONSTANTS
   MAXPK = 3
   SCALES <- SCALES_t
   LABS <- LABS_st
+  NBAD = 0
+  UBADS <- UBADS_none
 INVARIANT HSym
 INVARIANT CountOK
 INVARIANT CauchyBinet
@@ -14,5 +16,6 @@ INVARIANT StrictBoundary
 INVARIANT ScoreDef
 INVARIANT Covariant
 INVARIANT FixedPoint
+INVARIANT SubList
 INVARIANT Emit
 CHECK_DEADLOCK FALSE
